@@ -177,8 +177,15 @@ def run_pair(mon, base, idx, old, new, sh, locked=False):
                 for root in ENV_ROOTS:
                     for dp, _, _ in os.walk(os.path.join(d, root)):
                         os.chmod(dp, 0o555)
+            if not locked and step == "new" and idx % 4 == 1:
+                # the layer directory itself without write bits (as root the write still goes through): its mode is not the writer's to change
+                os.chmod(d, [0o555, 0o500, 0o711][idx // 4 % 3])
+            mode_before = os.stat(d).st_mode
             rep = mon.call({"op": "write", "dir": hx(d), "entries": enc_entries(entries)})
             sh.evaluations += 1
+            if os.stat(d).st_mode != mode_before:
+                sh.violation("write:layer-dir-mode", "writing the %s env changed the mode of the layer directory itself: %o -> %o" % (step, mode_before & 0o7777, os.stat(d).st_mode & 0o7777), case)
+                return
             if "err" in rep and locked and step == "new":
                 sh.count("locked_writes_refused")
                 sh.nontrivial.add(("locked-refused", frozenset(s_.split(":")[0] for s_, _, _, _ in old)))
